@@ -4,6 +4,7 @@ import NeumannModel.TwoPC.Recovery
 import NeumannModel.TwoPC.Restart
 import NeumannModel.TwoPC.Wal
 import NeumannModel.TwoPC.VoteSplit
+import NeumannModel.TwoPC.Settle
 /-
   Line-protocol driver for the 2PC model (C03).  State = one `Sys`.
     init <nshards> <txTimeout> <maxConcurrent> <lockTimeout>
@@ -31,6 +32,9 @@ import NeumannModel.TwoPC.VoteSplit
                                                             + recover() + re-send, `EvW.walRestart` of Wal.lean; answer
                                                             `wal <prepared> <committing> <aborting> rec <5 counters> dec <decisions>`;
                                                             `!outside` when the log disagrees with an announced decision, `SysW.walCurrent`)
+    settle                                                 (Settle.lean: every pool ABORT of a transaction whose only decision is abort is
+                                                            delivered — ordinary `deliver` events, pool order; answer `settled <n> stuck
+                                                            <tx.sh,..|->`: the participants still prepared for / holding a lock of such a tx)
     dump | dumpw                                           (dumpw: the dump followed by `|W:` and the log the coordinator has written)
   The driver keeps the log of a WAL-backed coordinator (`SysW.wal`) along every script; it is only read by `wrestart` / `dumpw`.
   An event is tagged `!outside` when it leaves the property's alphabet: participant cleanups, lock expiry, forged
@@ -321,6 +325,10 @@ def twopcStep (s : Sys) (line : String) : Sys × String :=
       | some e => ({ s with coord := { s.coord with pending := setTx s.coord.pending t { e with phase := ph } } }, "ok !outside |")
       | none => (s, "err not_found !outside |")
     | _, _ => bad
+  | ["settle"] =>
+    let s' := s.settle
+    let st := s'.stuck.map (fun e => s!"{e.1}.{e.2}")
+    (s', s!"settled {s.settleIdx.length} stuck {if st.isEmpty then "-" else ",".intercalate st} |")
   | ["dump"] => (s, showSys s)
   | _ => bad
 
